@@ -145,6 +145,7 @@ Gone(C, fs, d) == DOMAIN C.cf[d] \ Kept(C, fs, d)              \* removed or cha
 Fresh(C, fs, d) == DOMAIN fs[d] \ Kept(C, fs, d)               \* added or changed
 Changed(C, fs, d) == Gone(C, fs, d) \cap DOMAIN fs[d]
 
+NamePos(n) == CHOOSE i \in 1..Len(NameOrder) : NameOrder[i] = n
 DiskIdx(d) == CHOOSE i \in 0..63 : ToString(i) = d
 BaseName(n) == LET idx == {i \in 1..Len(n) : SubSeq(n, i, i) = "/"}
                IN IF idx = {} THEN n ELSE SubSeq(n, Max(idx) + 1, Len(n))
@@ -155,7 +156,9 @@ CopySources(C, fs, d, n) ==
         /\ SameStamp(C.cf[e][m], fs[d][n])
         \* with a usable sub-second part the name alone is compared, else the whole path (scan.c:1051-1054)
         /\ IF fs[d][n].mt[2] # 0 /\ fs[d][n].mt[2] >= 0 THEN BaseName(m) = BaseName(n) ELSE m = n
-        /\ ~(e = d /\ m \in Gone(C, fs, d))      \* the replaced record of the same path is removed first
+        \* on the same disk: the replaced record of the same path is removed first; another record that is replaced is
+        \* removed when its path is scanned (alphabetical order); records that are merely deleted stay until the end
+        /\ ~(e = d /\ (m = n \/ (m \in Changed(C, fs, d) /\ NamePos(m) < NamePos(n))))
         \* disks are scanned one after the other in configuration order (--test-skip-multi-scan in the conformance
         \* runs): a record replaced on an earlier disk is already gone, one on a later disk is still there
         /\ ~(DiskIdx(e) < DiskIdx(d) /\ m \in Changed(C, fs, e))
@@ -224,10 +227,13 @@ ScanCounts(C, fs, d) == [equal |-> Cardinality(Kept(C, fs, d)),
                          add |-> Cardinality(Fresh(C, fs, d) \ DOMAIN C.cf[d])]
 
 (* the interlocks of scan.c:1828-1873 and scan.c:1011 (copy-detected changes count as copies, not changes) *)
-EmptyInterlock(C, fs, srcs) ==
+(* lc[d] = [eq, rm, chg]: unchanged / removed / changed links of disk d; they count like files (scan.c:149-222) *)
+NoLinks == [d \in D |-> [eq |-> 0, rm |-> 0, chg |-> 0]]
+EmptyInterlockL(C, fs, srcs, lc) ==
     \E d \in D : LET k == ScanCounts(C, fs, d)
                      chg == Cardinality({n \in Changed(C, fs, d) : SrcOf(srcs, d, n) = <<>>})
-                 IN k.equal = 0 /\ (k.remove # 0 \/ chg # 0)
+                 IN k.equal + lc[d].eq = 0 /\ (k.remove + lc[d].rm # 0 \/ chg + lc[d].chg # 0)
+EmptyInterlock(C, fs, srcs) == EmptyInterlockL(C, fs, srcs, NoLinks)
 ZeroInterlock(C, fs) ==
     \E d \in D : \E n \in Changed(C, fs, d) : C.cf[d][n].sz # 0 /\ fs[d][n].sz = 0
 
@@ -415,7 +421,7 @@ Prehash(M, fs, lo, hi) ==
    opts = [force_full, force_empty, force_zero, nocopy]; srcs = copy-source choice *)
 SyncResult(C, fs0, fs1, par, now, opts, srcs) ==
     LET L0 == IF opts.nocopy THEN ForceNoCopy(ClearPast(C)) ELSE ClearPast(C)
-        refused == \/ (~opts.force_empty /\ EmptyInterlock(L0, fs0, srcs))
+        refused == \/ (~opts.force_empty /\ EmptyInterlockL(L0, fs0, srcs, IF "links" \in DOMAIN opts THEN opts.links ELSE NoLinks))
                    \/ (~opts.force_zero /\ ZeroInterlock(L0, fs0))
         M0 == Scan(L0, fs0, srcs, TRUE)
         bm == AllocatedMax(M0)
